@@ -62,6 +62,9 @@ CHECKS = {
  "C17": dict(engine="schedx", cat="model_checking", tech="stateless preemption-bounded schedule exploration of real OS threads (CHESS-style iterative context bounding) at cfg(surrealkv_verif) scheduling points, every schedule re-executed on the real store",
   text="Committers against a nearly full memtable with the lowest legal stall thresholds, a background flusher/compactor, injected WAL and apply failures and a closer thread issuing the shutdown signals are explored for every schedule within the preemption bound; the scheduler reports a deadlock (no enabled thread while some are unfinished) or a livelock (step horizon exceeded), any panic (incl. the commit-queue overflow panic) and any commit error that has no cause in the scenario. The full close() (task manager stop with real timers) is exercised after every prefix of sequential workloads by the world engine (C06/C07).",
   note="Up to 3 concurrent committers (the pipeline admits 7); close() itself is not run under the scheduler (its tokio timers are not scheduling points), only its first two steps (pipeline shutdown + stall wake-up) are.", ref="DESIGN.md §5 C17"),
+ "C14": dict(engine="seqx-world", cat="model_checking", tech=SEQ_TECH,
+  text="For three canonical pre-histories (memtable only / one L0 table / L1 + L0 + memtable), every mid-history of up to m operations from {commit, delete, flush, compaction} between checkpoint and restore and every post-history of up to p operations from {commit, flush, compaction, reopen} after the restore is executed on the real store per option set (plain, value log, versioning, version index, no cache, tiny blocks); after the restore and after every later step all reads are compared with the map model at the checkpoint plus the post-restore commits, and the checkpoint directory is opened on its own and compared with the model at the checkpoint. Background tasks queued before the restore (deferred WAL clean-up) are left pending across it.",
+  note="Single-threaded driver (no commit in flight during checkpoint/restore); exhaustive within (m, p) and the fixed option sets; history/time-travel reads after a restore are judged by C10.", ref="DESIGN.md §5 C14"),
 }
 
 NOT_YET = {}
